@@ -263,6 +263,34 @@ func cmdCheck(args []string) int {
 			}
 		}
 	}
+	// vacuity across jobs: every vReach site of a harness must be reached by
+	// at least one of its jobs in this check
+	if *only == "" {
+		static := map[string]map[string]bool{}
+		reached := map[string]map[string]bool{}
+		for _, r := range results {
+			h := r.Spec.Harness
+			if static[h] == nil {
+				static[h], reached[h] = map[string]bool{}, map[string]bool{}
+			}
+			for _, id := range r.StaticReach {
+				static[h][id] = true
+			}
+			for id, v := range r.Reach {
+				if v == "sat" {
+					reached[h][id] = true
+				}
+			}
+		}
+		for h, ids := range static {
+			for id := range ids {
+				if !reached[h][id] {
+					inconclusive++
+					fmt.Fprintf(os.Stderr, "VACUOUS harness %s: reach point %q is not reached by any job of this check\n", h, id)
+				}
+			}
+		}
+	}
 	if mismatch > 0 && exit != 1 {
 		exit = 3
 	}
